@@ -42,13 +42,14 @@ theorem C29_request_fixed_length {max : Nat} (hmax : 0 < max) {m0 sl m u v : Byt
   rw [request_length_any_split hmax w hch data rest hn ps hps]
   simp [doneCore, reqHeadCore, reqAtHeadEnd, reqAfterStart, cStarted, cWait, core0, init]
 
-/-- **Response with a body of announced length** (`Content-Length`, or 204 / 304 / 1xx / answer to
-HEAD). -/
+/-- **Response with a body of announced length** (`Content-Length`, or 204 / 304 / answer to
+HEAD), preceded by any number `pre` of interim `100 Continue` responses, which are skipped. -/
 theorem C29_response_fixed_length {max : Nat} (hmax : 0 < max) {m0 sl reason : Bytes} {ver : Nat × Nat}
-    {status : Nat} {ls : List Bytes} {H : Hdrs} (w : RspHead max sl ls ver status reason H)
+    {status : Nat} {ls : List Bytes} {H : Hdrs} (pre : List Interim) (hpre : ∀ i ∈ pre, i.ok max)
+    (w : RspHead max sl ls ver status reason H)
     (hch : isChunked H = false) (data rest : Bytes)
     (hn : rspLen (rspAtHeadEnd m0 max ver status reason H) H = some data.length) (ps : List Bytes)
-    (hps : ps.flatten = headBytes sl ls ++ (data ++ rest)) :
+    (hps : ps.flatten = interimBytes pre ++ (headBytes sl ls ++ (data ++ rest))) :
     (feedAll (init .rsp m0 max) ps).msg = rest ∧
     (feedAll (init .rsp m0 max) ps).core.gen = .none ∧
     (feedAll (init .rsp m0 max) ps).core.ended = some true ∧
@@ -60,7 +61,7 @@ theorem C29_response_fixed_length {max : Nat} (hmax : 0 < max) {m0 sl reason : B
     (feedAll (init .rsp m0 max) ps).core.headers = some H ∧
     (feedAll (init .rsp m0 max) ps).core.body = data ∧
     (feedAll (init .rsp m0 max) ps).core.trails = none := by
-  rw [response_length_any_split hmax w hch data rest hn ps hps]
+  rw [response_length_any_split hmax pre hpre w hch data rest hn ps hps]
   simp [doneCore, rspHeadCore', rspHeadCore, rspAtHeadEnd, rspAfterStart, cStarted, cWait, core0, init]
 
 /-! ## chunked, with extensions and trailers -/
@@ -92,13 +93,14 @@ theorem C29_request_chunked {max : Nat} (hmax : 0 < max) {m0 sl m u v : Bytes} {
 
 /-- **Chunked response**. -/
 theorem C29_response_chunked {max : Nat} (hmax : 0 < max) {m0 sl reason : Bytes} {ver : Nat × Nat}
-    {status : Nat} {ls : List Bytes} {H : Hdrs} (w : RspHead max sl ls ver status reason H)
+    {status : Nat} {ls : List Bytes} {H : Hdrs} (pre : List Interim) (hpre : ∀ i ∈ pre, i.ok max)
+    (w : RspHead max sl ls ver status reason H)
     (hch : isChunked H = true)
     (ks : List Chunk) (hks : ∀ k ∈ ks, k.wf max)
     (ll : Bytes) (pm0 : Parms) (hll : cleanLine ll) (hlls : ll.length < max) (hl0 : chunkLine ll = .ok (0, pm0))
     (ts : List Bytes) (Tr : Hdrs) (hts : ∀ l ∈ ts, goodLine max l) (hTr : foldHdr [] ts = some Tr)
     (rest : Bytes) (ps : List Bytes)
-    (hps : ps.flatten = headBytes sl ls ++ (chunksBytes ks ++ (lastBytes ll ts ++ rest))) :
+    (hps : ps.flatten = interimBytes pre ++ (headBytes sl ls ++ (chunksBytes ks ++ (lastBytes ll ts ++ rest)))) :
     (feedAll (init .rsp m0 max) ps).msg = rest ∧
     (feedAll (init .rsp m0 max) ps).core.gen = .none ∧
     (feedAll (init .rsp m0 max) ps).core.ended = some true ∧
@@ -111,7 +113,7 @@ theorem C29_response_chunked {max : Nat} (hmax : 0 < max) {m0 sl reason : Bytes}
     (feedAll (init .rsp m0 max) ps).core.body = chunksData ks ∧
     (feedAll (init .rsp m0 max) ps).core.parms = updParms (chunksParms (some []) ks) pm0 ∧
     (feedAll (init .rsp m0 max) ps).core.trails = (if Tr = [] then none else some Tr) := by
-  rw [response_chunked_any_split hmax w hch ks hks ll pm0 hll hlls hl0 ts Tr hts hTr rest ps hps]
+  rw [response_chunked_any_split hmax pre hpre w hch ks hks ll pm0 hll hlls hl0 ts Tr hts hTr rest ps hps]
   simp [chunkedDone, doneCore, rspHeadCore', rspHeadCore, rspAtHeadEnd, rspAfterStart, cStarted, cWait, core0, init, trailsOf]
 
 /-! ## read until close -/
@@ -119,10 +121,11 @@ theorem C29_response_chunked {max : Nat} (hmax : 0 < max) {m0 sl reason : Bytes}
 /-- **Response without length, not chunked**: every byte after the head is body, for every split;
 `close()` then `parse()` completes the message with that body. -/
 theorem C29_response_until_close {max : Nat} (hmax : 0 < max) {m0 sl reason : Bytes} {ver : Nat × Nat}
-    {status : Nat} {ls : List Bytes} {H : Hdrs} (w : RspHead max sl ls ver status reason H)
+    {status : Nat} {ls : List Bytes} {H : Hdrs} (pre : List Interim) (hpre : ∀ i ∈ pre, i.ok max)
+    (w : RspHead max sl ls ver status reason H)
     (hch : isChunked H = false)
     (hn : rspLen (rspAtHeadEnd m0 max ver status reason H) H = none) (body : Bytes) (ps : List Bytes)
-    (hps : ps.flatten = headBytes sl ls ++ body) :
+    (hps : ps.flatten = interimBytes pre ++ (headBytes sl ls ++ body)) :
     (feedAll (init .rsp m0 max) ps).msg = [] ∧
     (feedAll (init .rsp m0 max) ps).core.body = body ∧
     (feedAll (init .rsp m0 max) ps).core.headers = some H ∧
@@ -133,7 +136,7 @@ theorem C29_response_until_close {max : Nat} (hmax : 0 < max) {m0 sl reason : By
     (parse (close (feedAll (init .rsp m0 max) ps))).core.escaped = none ∧
     (parse (close (feedAll (init .rsp m0 max) ps))).core.body = body ∧
     (parse (close (feedAll (init .rsp m0 max) ps))).core.length = some body.length := by
-  obtain ⟨h1, h2⟩ := response_close_any_split hmax w hch hn body ps hps
+  obtain ⟨h1, h2⟩ := response_close_any_split hmax pre hpre w hch hn body ps hps
   rw [h2, h1]
   simp [doneCore, rspHeadCore', rspHeadCore, rspAtHeadEnd, rspAfterStart, cStarted, cWait, core0, init]
 
@@ -151,21 +154,24 @@ inductive WfStream (max : Nat) : Kind → Bytes → Bytes → Prop
       (ts : List Bytes) (Tr : Hdrs) (hts : ∀ l ∈ ts, goodLine max l) (hTr : foldHdr [] ts = some Tr)
       (rest : Bytes) :
       WfStream max .req m0 (headBytes sl ls ++ (chunksBytes ks ++ (lastBytes ll ts ++ rest)))
-  | rspLength {m0 sl reason ver status ls H} (w : RspHead max sl ls ver status reason H)
+  | rspLength {m0 sl reason ver status ls H} (pre : List Interim) (hpre : ∀ i ∈ pre, i.ok max)
+      (w : RspHead max sl ls ver status reason H)
       (hch : isChunked H = false) (data rest : Bytes)
       (hn : rspLen (rspAtHeadEnd m0 max ver status reason H) H = some data.length) :
-      WfStream max .rsp m0 (headBytes sl ls ++ (data ++ rest))
-  | rspChunked {m0 sl reason ver status ls H} (w : RspHead max sl ls ver status reason H)
+      WfStream max .rsp m0 (interimBytes pre ++ (headBytes sl ls ++ (data ++ rest)))
+  | rspChunked {m0 sl reason ver status ls H} (pre : List Interim) (hpre : ∀ i ∈ pre, i.ok max)
+      (w : RspHead max sl ls ver status reason H)
       (hch : isChunked H = true)
       (ks : List Chunk) (hks : ∀ k ∈ ks, k.wf max)
       (ll : Bytes) (pm0 : Parms) (hll : cleanLine ll) (hlls : ll.length < max) (hl0 : chunkLine ll = .ok (0, pm0))
       (ts : List Bytes) (Tr : Hdrs) (hts : ∀ l ∈ ts, goodLine max l) (hTr : foldHdr [] ts = some Tr)
       (rest : Bytes) :
-      WfStream max .rsp m0 (headBytes sl ls ++ (chunksBytes ks ++ (lastBytes ll ts ++ rest)))
-  | rspClose {m0 sl reason ver status ls H} (w : RspHead max sl ls ver status reason H)
+      WfStream max .rsp m0 (interimBytes pre ++ (headBytes sl ls ++ (chunksBytes ks ++ (lastBytes ll ts ++ rest))))
+  | rspClose {m0 sl reason ver status ls H} (pre : List Interim) (hpre : ∀ i ∈ pre, i.ok max)
+      (w : RspHead max sl ls ver status reason H)
       (hch : isChunked H = false)
       (hn : rspLen (rspAtHeadEnd m0 max ver status reason H) H = none) (body : Bytes) :
-      WfStream max .rsp m0 (headBytes sl ls ++ body)
+      WfStream max .rsp m0 (interimBytes pre ++ (headBytes sl ls ++ body))
 
 /-- **However the bytes arrive**: two ways of cutting the same well-formed stream into receives
 leave the parser in the same state — every field and the unconsumed buffer. -/
@@ -180,15 +186,15 @@ theorem C29_split_independent {max : Nat} (hmax : 0 < max) {kind : Kind} {m0 str
   | reqChunked w hch ks hks ll pm0 hll hlls hl0 ts Tr hts hTr rest =>
     rw [request_chunked_any_split hmax w hch ks hks ll pm0 hll hlls hl0 ts Tr hts hTr rest ps hps,
       request_chunked_any_split hmax w hch ks hks ll pm0 hll hlls hl0 ts Tr hts hTr rest ps' hps']
-  | rspLength w hch data rest hn =>
-    rw [response_length_any_split hmax w hch data rest hn ps hps,
-      response_length_any_split hmax w hch data rest hn ps' hps']
-  | rspChunked w hch ks hks ll pm0 hll hlls hl0 ts Tr hts hTr rest =>
-    rw [response_chunked_any_split hmax w hch ks hks ll pm0 hll hlls hl0 ts Tr hts hTr rest ps hps,
-      response_chunked_any_split hmax w hch ks hks ll pm0 hll hlls hl0 ts Tr hts hTr rest ps' hps']
-  | rspClose w hch hn body =>
-    rw [(response_close_any_split hmax w hch hn body ps hps).1,
-      (response_close_any_split hmax w hch hn body ps' hps').1]
+  | rspLength pre hpre w hch data rest hn =>
+    rw [response_length_any_split hmax pre hpre w hch data rest hn ps hps,
+      response_length_any_split hmax pre hpre w hch data rest hn ps' hps']
+  | rspChunked pre hpre w hch ks hks ll pm0 hll hlls hl0 ts Tr hts hTr rest =>
+    rw [response_chunked_any_split hmax pre hpre w hch ks hks ll pm0 hll hlls hl0 ts Tr hts hTr rest ps hps,
+      response_chunked_any_split hmax pre hpre w hch ks hks ll pm0 hll hlls hl0 ts Tr hts hTr rest ps' hps']
+  | rspClose pre hpre w hch hn body =>
+    rw [(response_close_any_split hmax pre hpre w hch hn body ps hps).1,
+      (response_close_any_split hmax pre hpre w hch hn body ps' hps').1]
 
 /-! ## what the line functions read in canonically written lines -/
 
@@ -211,6 +217,15 @@ theorem C29_request_line {m u v : Bytes} (hm : methods.contains m = true) (hu : 
     (hver : startsWith sHTTP v = true) :
     parseRequestLine (m ++ 32 :: (u ++ 32 :: v)) = .ok (m, u, v) :=
   parseRequestLine_canon hm hu hv hver
+
+/-- **Chunk size line**: a size written in lower-case hexadecimal digits is read as that number,
+without extensions. -/
+theorem C29_chunk_size_line {ds : List Nat} (hne : ds ≠ []) (hd : ∀ d ∈ ds, d < 16) :
+    chunkLine (ds.map hexChar) = .ok ((hexValue ds : Int), []) :=
+  chunkLine_hex hne hd
+
+/-- non-vacuity: `1f` is 31 -/
+example : [1, 15].map hexChar = [49, 102] ∧ hexValue [1, 15] = 31 := by decide
 
 /-! ## non-vacuity: concrete messages -/
 
@@ -261,5 +276,38 @@ example :
 example : (feedAll (init .req [71, 69, 84] 65536)
     [[80, 79, 83, 84, 32, 47, 120, 32, 72, 84, 84, 80, 47, 49, 46, 49, 13, 10, 72, 111, 115, 116, 58, 97, 13], [10, 84, 114, 97, 110, 115, 102, 101, 114, 45, 69, 110, 99, 111, 100, 105, 110, 103, 58, 32, 99, 104, 117, 110, 107, 101, 100, 13, 10, 13, 10, 51, 59, 102, 111, 111, 61, 98, 97, 114, 13, 10, 97],
      [98, 99, 13, 10, 48, 13, 10, 88, 45, 84, 58, 32, 49, 13, 10, 13, 10, 78, 69, 88, 84]]).core.body = [97, 98, 99] := by decide
+
+/-- `HTTP/1.1 200 OK`, `Content-Length:1` -/
+theorem exRspHead : RspHead 65536 [72, 84, 84, 80, 47, 49, 46, 49, 32, 50, 48, 48, 32, 79, 75] [[67, 111, 110, 116, 101, 110, 116, 45, 76, 101, 110, 103, 116, 104, 58, 49]] (1, 1) 200 [79, 75]
+    [([99, 111, 110, 116, 101, 110, 116, 45, 108, 101, 110, 103, 116, 104], [49])] where
+  clean := by decide
+  short := by decide
+  parsed := ⟨[72, 84, 84, 80, 47, 49, 46, 49], by rfl, by rfl⟩
+  not100 := by decide
+  lines := by
+    intro l hl
+    simp only [List.mem_cons, List.not_mem_nil, or_false] at hl
+    subst hl; exact ⟨by decide, by simp, by decide⟩
+  hdrs := by rfl
+  notEvented := by rfl
+
+/-- the interim response `HTTP/1.1 100 Continue` -/
+theorem exInterim : Interim.ok 65536 ⟨[72, 84, 84, 80, 47, 49, 46, 49, 32, 49, 48, 48, 32, 67, 111, 110, 116, 105, 110, 117, 101], []⟩ :=
+  ⟨by decide, by decide, ⟨[72, 84, 84, 80, 47, 49, 46, 49], [67, 111, 110, 116, 105, 110, 117, 101], by rfl⟩, by simp, ⟨[], rfl⟩⟩
+
+/-- `100 Continue`, then `200 OK` with one byte of body, then `X`: cut inside the interim response and
+inside the status line; the interim response is skipped, body `z`, `X` left -/
+example :
+    let ps : List Bytes := [[72, 84, 84, 80, 47, 49, 46, 49, 32, 49, 48, 48, 32, 67, 111, 110, 116], [105, 110, 117, 101, 13, 10, 13, 10, 72, 84, 84, 80, 47, 49, 46, 49, 32, 50],
+      [48, 48, 32, 79, 75, 13, 10, 67, 111, 110, 116, 101, 110, 116, 45, 76, 101, 110, 103, 116, 104, 58, 49, 13, 10, 13, 10, 122, 88]]
+    (feedAll (init .rsp [71, 69, 84] 65536) ps).msg = [88] ∧
+    (feedAll (init .rsp [71, 69, 84] 65536) ps).core.body = [122] ∧
+    (feedAll (init .rsp [71, 69, 84] 65536) ps).core.status = some 200 := by
+  intro ps
+  have h := C29_response_fixed_length (max := 65536) (by decide) (m0 := [71, 69, 84])
+    [⟨[72, 84, 84, 80, 47, 49, 46, 49, 32, 49, 48, 48, 32, 67, 111, 110, 116, 105, 110, 117, 101], []⟩]
+    (by intro i hi; simp only [List.mem_cons, List.not_mem_nil, or_false] at hi; subst hi; exact exInterim)
+    exRspHead (by rfl) [122] [88] (by rfl) ps (by decide)
+  exact ⟨h.1, h.2.2.2.2.2.2.2.2.2.1, h.2.2.2.2.2.2.1⟩
 
 end Ioflo.Http
